@@ -1636,6 +1636,13 @@ func (f *frame) call(e *ast.CallExpr) ([]Value, error) {
 		switch v.(type) {
 		case int64, bool, string:
 			return []Value{v}, nil
+		case nil:
+			z, err := zeroOf(tv.Type)
+			if err == nil {
+				return []Value{z}, nil
+			}
+		case *Slice, *Map, *Rec, *Obj:
+			return []Value{v}, nil // conversion between identical underlying types
 		}
 		return nil, unsup(e.Pos(), "conversion of %T", v)
 	}
